@@ -184,7 +184,10 @@ def run_pairs(v, workfn, wd, quick, extra_consts=None):
           dict(base, MaxObjs=2, MaxItems=2, NKeys=1, NSlots=2, KindSet={'config', 'list', 'tuple'},
                TagChoices={0, 1}, UnsetTagged=True, MaxEdits=2)]
   if not quick:
-    runs = [dict(base, MaxObjs=3, MaxItems=2, NKeys=2, NSlots=2,
+    # (sized with TLC alone: 0.8 M + 0.7 M pairs; MaxObjs=3 with five kinds and two edits is 20 M)
+    runs = [dict(base, MaxObjs=3, MaxItems=2, NKeys=1, NSlots=2, KindSet={'config', 'list', 'dict', 'tuple'},
+                 TagChoices={0, 1}, UnsetTagged=True, MaxEdits=1),
+            dict(base, MaxObjs=2, MaxItems=2, NKeys=2, NSlots=2,
                  KindSet={'config', 'partial', 'list', 'dict', 'tuple'},
                  TagChoices={0, 1}, UnsetTagged=True, MaxEdits=2)]
   totals = {'lines': 0, 'nontrivial': 0}
